@@ -318,6 +318,71 @@ func smallByGuard(st ssa.Instruction, at ssa.Instruction) bool {
 	return false
 }
 
+// smallByCallerGuard: the stored value is a field of a parameter of a private function, and every caller
+// rejects values of that field above a constant below 24 before the call.
+func (p *Prog) smallByCallerGuard(st ssa.Instruction) bool {
+	s, ok := st.(*ssa.Store)
+	if !ok {
+		return false
+	}
+	fr, ok := asLoadedField(canonConv(s.Val))
+	if !ok {
+		return false
+	}
+	prm, ok := canon(fr.Base).(*ssa.Parameter)
+	fn := st.Parent()
+	if !ok || fn.Object() == nil || fn.Object().Exported() {
+		return false
+	}
+	idx := -1
+	for i, q := range fn.Params {
+		if q == prm {
+			idx = i
+		}
+	}
+	sites := p.CallersOf(fn)
+	if idx < 0 || len(sites) == 0 {
+		return false
+	}
+	for _, cs := range sites {
+		a := cs.Instr.Common().Args
+		if idx >= len(a) {
+			return false
+		}
+		at := cs.Instr.(ssa.Instruction)
+		guarded := false
+		for d := at.Block(); d != nil; d = d.Idom() {
+			ifi, ok := d.Instrs[len(d.Instrs)-1].(*ssa.If)
+			if !ok || d == at.Block() {
+				continue
+			}
+			bo, ok := ifi.Cond.(*ssa.BinOp)
+			if !ok {
+				continue
+			}
+			k, isK := constInt(canonConv(bo.Y))
+			gf, isF := asLoadedField(canonConv(bo.X))
+			if !isK || !isF || gf.Field != fr.Field || gf.Owner != fr.Owner || !sameValue(gf.Base, a[idx]) {
+				continue
+			}
+			max := int64(-1)
+			switch bo.Op {
+			case token.GTR:
+				max = k
+			case token.GEQ:
+				max = k - 1
+			}
+			if max >= 0 && max < 24 && edgeDominates(d, 1, at.Block()) {
+				guarded = true
+			}
+		}
+		if !guarded {
+			return false
+		}
+	}
+	return true
+}
+
 func ruleL21(p *Prog, r *Report) {
 	const R = "L21"
 	n := 0
@@ -454,7 +519,7 @@ func ruleL21(p *Prog, r *Report) {
 				if !b.known {
 					// a run-time byte in head position is a complete one-byte unsigned integer when a dominating
 					// rejection bounds its source below 24 (the hash level is refused above maxDigestLevel)
-					if b.from != nil && smallByGuard(b.from, w.in) {
+					if b.from != nil && (smallByGuard(b.from, w.in) || p.smallByCallerGuard(b.from)) {
 						i++
 						continue
 					}
@@ -551,6 +616,7 @@ func ruleL21(p *Prog, r *Report) {
 		return out
 	}
 	nHeads := 0
+	headKeys := map[string]int{}
 	for _, f := range funcs {
 		if p.IsTestFile(f.Pos()) || isDiagnosticFile(p.Fset.Position(f.Pos()).Filename) {
 			continue
@@ -603,7 +669,28 @@ func ruleL21(p *Prog, r *Report) {
 			ord++
 			nHeads++
 			n++
+			// named after the list type and the field whose length is narrowed (wherever the write was moved to)
+			fieldOfLen := ""
+			sliceContains(cv.X, func(x ssa.Value) bool {
+				c, ok := x.(*ssa.Call)
+				if !ok {
+					return false
+				}
+				if bi, ok := c.Call.Value.(*ssa.Builtin); ok && bi.Name() == "len" && len(c.Call.Args) == 1 {
+					if fr, ok := asLoadedField(c.Call.Args[0]); ok && fieldOfLen == "" {
+						fieldOfLen = fr.Field
+					}
+				}
+				return false
+			}, 0, map[ssa.Value]bool{})
 			cons := fmt.Sprintf("length-fits-head:%s#%d", p.Name(f), ord)
+			if rn != "" && fieldOfLen != "" {
+				cons = fmt.Sprintf("length-fits-head:%s.%s", rn, fieldOfLen)
+				headKeys[cons]++
+				if headKeys[cons] > 1 {
+					cons = fmt.Sprintf("%s#%d", cons, headKeys[cons])
+				}
+			}
 			var unbounded []string
 			conts := []string{rn}
 			if !slabStructs[rn] {
